@@ -12,4 +12,4 @@ Extraction "model.ml"
   enc_is_resp dec_is_resp enc_rv_req dec_rv_req enc_is_req dec_is_req enc_ae_req dec_ae_req
   enc_conf dec_conf send_ae_req recv_ae_req
   replay run_log lstep crash_images recover init_log
-  read_state state_rec.
+  read_state state_rec sstep recover_snap latest.
